@@ -102,3 +102,77 @@ def pos_lemmas():
     step = lambda k: pos(k + 1) == pos(k) + w(k); wr = lambda k: And(w(k) >= 1, w(k) <= 2)
     return [('pos-monotone.base: pos(j) + w(j) <= pos(j + 1)', [step(j), wr(j)], pos(j) + w(j) <= pos(j + 1)),
             ('pos-monotone.step: j < i and pos(j) + w(j) <= pos(i)  =>  pos(j) + w(j) <= pos(i + 1)', [j < i, pos(j) + w(j) <= pos(i), step(i), wr(i)], pos(j) + w(j) <= pos(i + 1))]
+
+
+# ================================================================================================= _produce_transformation_for_vertical_opt
+PFIELDS = {'_tensor_name_to_graph_info': 'dict[str,ref]', 'tensor_name': 'str', 'consumers': 'list[int]', 'subgraph_op_id': 'int', 'transformations': 'list[int]', 'parameters': 'ref',
+           'tensor_id': 'int', 'producer': 'int', 'transformation': 'int'}
+class ProduceForVerticalOpt(Spec):
+    """_produce_transformation_for_vertical_opt(consumer_group, param): one instruction per consumer group of depth 1 (none when the grouping has no depth 1), in group order:
+         (first transformation and parameters of ONE member of the group, the tensor's id and producer from the graph-info table, the operator ids of ALL members of the group)
+       `list(group)` enumerates a set: the contract is stated for an arbitrary enumeration (ghost list per group) -- the instruction names every member's operator exactly once, in that order,
+       and its transformation / parameters are those of the member enumerated first.  Preconditions from the call site (`_group_consumer_transformations`): groups are non-empty sets of positions
+       of param.consumers, every member has at least one transformation, the tensor is in the graph-info table."""
+    fields = PFIELDS; consts = CONSTS
+    constructors = {'qtyping.TransformationInst': ['transformation', 'tensor_id', 'producer', 'consumers', 'parameters']}
+    def __init__(self): self.invariants = {0: self.inv_groups, 1: self.inv_members}
+    def empty_list_kind(self, line): return 'ref' if getattr(self, '_first_list', True) and not setattr(self, '_first_list', False) else 'int'     # transformations_... = [] (refs), then op_idx_list = [] (ints)
+    def field_kind(self, node, kind):
+        import ast
+        if node.attr == 'consumers' and isinstance(node.value, ast.Name) and node.value.id == 'param': return 'list[ref]'
+        return None
+    def on_list_of_set(self, E, p, src, out):
+        # ghost: remember the enumeration chosen for this group (LSTOF is only ever defined here, once per group object)
+        p.pc.append(self.LSTOF(src.term) == out.term)
+    def bind(self, E, p):
+        h = p.heap; S = self; S._first_list = True
+        for nme in list(PFIELDS) + ['$len', '$items:int', '$items:ref', '$dkeys:str', '$dhas:str', '$dmap:str:ref', '$dhas:int']: h.arr(nme)
+        h0 = h.copy(); S.h0 = h0
+        S.self_ = z3.Const('self', Ref); S.CG = z3.Const('consumer_group', Ref); S.param = z3.Const('param', Ref)
+        p.env.update(self=V('ref', S.self_), consumer_group=V('list[list[set[int]]]', S.CG), param=V('ref', S.param))
+        S.table = h0.load(S.self_, '_tensor_name_to_graph_info'); S.name = h0.load(S.param, 'tensor_name'); S.info = h0.load(S.table, '$dmap:str:ref')[S.name]
+        S.PCs = h0.load(S.param, 'consumers'); S.npc = ln(h0, S.PCs); S.cons = lambda i: items_r(h0, S.PCs)[i]
+        S.depth = ln(h0, S.CG); S.G1 = items_r(h0, S.CG)[1]; S.ng = ln(h0, S.G1); S.grp = lambda g: items_r(h0, S.G1)[g]; S.has = lambda g: h0.load(S.grp(g), '$dhas:int')
+        S.LSTOF = z3.Function('enumeration_of_group', Ref, Ref); S.W = z3.Function('some_member_of_group', I, I)
+        objs = [S.self_, S.CG, S.param, S.table, S.PCs]
+        p.pc += [z3.Distinct(*objs)] + [x != NULL for x in objs] + [h0.alloc[x] for x in objs] + [S.depth >= 0, S.npc >= 0, h0.load(S.table, '$dhas:str')[S.name], S.info != NULL, h0.alloc[S.info],
+                 Implies(S.depth > 1, And(S.G1 != NULL, h0.alloc[S.G1], S.ng >= 0, S.G1 != S.CG, S.G1 != S.PCs))]
+        F = p.facts.append
+        F(Schematic(1, lambda g: Implies(And(S.depth > 1, 0 <= g, g < S.ng), And(S.grp(g) != NULL, h0.alloc[S.grp(g)], S.has(g)[S.W(g)])), 'req:groups-are-non-empty-sets'))
+        F(Schematic(2, lambda g, x: Implies(And(S.depth > 1, 0 <= g, g < S.ng, S.has(g)[x]), And(0 <= x, x < S.npc)), 'req:members-are-positions-of-param.consumers'))
+        F(Schematic(1, lambda i: Implies(And(0 <= i, i < S.npc), And(S.cons(i) != NULL, h0.alloc[S.cons(i)], h0.load(S.cons(i), 'transformations') != NULL, h0.alloc[h0.load(S.cons(i), 'transformations')],
+                                                                  ln(h0, h0.load(S.cons(i), 'transformations')) >= 1)), 'req:every-consumer-has-a-transformation'))
+    def bounds(self, E): return [self.ng, self.npc]
+    def may_write(self, E, p, ref, field): return z3.BoolVal(False)            # fresh objects only
+    relaxed_first = True            # the enumeration of a group is reached through the ghost LSTOF(group) in the contract and through the local `op_list` in the code: owner-relaxed matching
+    def relevant(self, label): return ['req:', 'inv:', 'list', 'in-def']
+    def bounds_note(self): return 'lengths of the enumerations are not bounded in the refutation scope: bounded-scope models are candidates only'
+    refutable = False
+    # ---- what the instruction built for group g looks like (enumeration L = LSTOF(group g))
+    def inst_ok(self, h, T, g):
+        S = self; h0 = S.h0; o = items_r(h, T)[g]; L = S.LSTOF(S.grp(g)); first = items_i(h, L)[0]; oc = h.load(o, 'consumers')
+        return And(o != NULL, Not(h0.alloc[o]), h.alloc[o], L != NULL, ln(h, L) >= 1, S.has(g)[first],
+                   h.load(o, 'transformation') == items_i(h0, h0.load(S.cons(first), 'transformations'))[0], h.load(o, 'parameters') == h0.load(S.cons(first), 'parameters'),
+                   h.load(o, 'tensor_id') == h0.load(S.info, 'tensor_id'), h.load(o, 'producer') == h0.load(S.info, 'producer'), oc != NULL, ln(h, oc) == ln(h, L))
+    def ops_ok(self, ctx, h, T, upto):
+        S = self; h0 = S.h0
+        return ctx.forall(2, lambda g, k: Implies(And(0 <= g, g < upto, 0 <= k, k < ln(h, S.LSTOF(S.grp(g)))),
+                                                  And(S.has(g)[items_i(h, S.LSTOF(S.grp(g)))[k]], items_i(h, h.load(items_r(h, T)[g], 'consumers'))[k] == h0.load(S.cons(items_i(h, S.LSTOF(S.grp(g)))[k]), 'subgraph_op_id'))), 'inv:ops')
+    def state(self, ctx, p, g_upto):
+        S = self; h = p.heap; T = p.env['transformations_available_for_vertical_optimization'].term
+        return [('result-length', And(T != NULL, h.alloc[T], Not(S.h0.alloc[T]), ln(h, T) == g_upto)),
+                ('one-instruction-per-group', ctx.forall(1, lambda g: Implies(And(0 <= g, g < g_upto), S.inst_ok(h, T, g)), 'inv:insts')),
+                ('instruction-names-the-operator-of-every-member-in-enumeration-order', S.ops_ok(ctx, h, T, g_upto)),
+                ('allocated', ctx.forall(1, lambda g: Implies(And(0 <= g, g < g_upto), And(h.alloc[items_r(h, T)[g]], h.alloc[h.load(items_r(h, T)[g], 'consumers')], h.alloc[S.LSTOF(S.grp(g))],
+                                                                                         Not(S.h0.alloc[h.load(items_r(h, T)[g], 'consumers')]), Not(S.h0.alloc[S.LSTOF(S.grp(g))]), items_r(h, T)[g] != T, h.load(items_r(h, T)[g], 'consumers') != T, S.LSTOF(S.grp(g)) != T)), 'inv:alloc')),
+                ('inputs-not-written', And(ln(h, S.G1) == S.ng, items_r(h, S.G1) == items_r(S.h0, S.G1), ln(h, S.PCs) == S.npc, items_r(h, S.PCs) == items_r(S.h0, S.PCs)))]
+    def inv_groups(self, E, ctx, p, pre, g): return [('g-range', And(0 <= g, g <= self.ng))] + self.state(ctx, p, g)
+    def inv_members(self, E, ctx, p, pre, k):
+        S = self; h = p.heap; g = pre.env['$i0'].term; L = p.env['op_list'].term; ol = p.env['op_idx_list'].term
+        return [('k-range', And(0 <= k, k <= ln(h, L))), ('enumeration-kept', And(L == S.LSTOF(S.grp(g)), ln(h, L) == ln(pre.heap, L), items_i(h, L) == items_i(pre.heap, L), ln(h, L) >= 1)),
+                ('ops-so-far', And(ol != NULL, ol != L, h.alloc[ol], Not(S.h0.alloc[ol]), ln(h, ol) == k, ctx.forall(1, lambda j: Implies(And(0 <= j, j < k), items_i(h, ol)[j] == S.h0.load(S.cons(items_i(h, L)[j]), 'subgraph_op_id')), 'inv:ops-prefix')))] + self.state(ctx, p, g)
+    def ensures(self, E, ctx, p, ret):
+        S = self; h = p.heap; T = ret.term; n = If(S.depth > 1, S.ng, 0)
+        return [('one-instruction-per-depth-1-group-(none-without-depth-1)', ln(h, T) == n),
+                ('each-instruction: transformation and parameters of the first enumerated member, tensor id and producer from the graph-info table', ctx.forall(1, lambda g: Implies(And(0 <= g, g < n), S.inst_ok(h, T, g)))),
+                ('each-instruction names the operator of every member of its group once, in enumeration order', S.ops_ok(ctx, h, T, n))]
